@@ -349,6 +349,8 @@ class Interp:
 
     def s_If(self, node, frame):
         c = self.eval(node.test, frame)
+        if isinstance(c, Sym) and not self.ctx.spec_mode and self.models.if_convert_append(self, node, frame, c):
+            return
         if self.truth_value(c):
             self.exec_block(node.body, frame)
         else:
@@ -627,6 +629,13 @@ class Interp:
         if h is not self.models.NOHOOK:
             return h
         try:
+            if self.registry is not None and not self.concrete:
+                try:
+                    ex = self.registry.exact_attrs.get((id(obj), attr))
+                except AttributeError:
+                    ex = None
+                if ex is not None:
+                    return ex
             return self.realify(getattr(obj, attr))
         except CONTROL:
             raise
@@ -899,7 +908,7 @@ class Interp:
         if isinstance(f, types.FunctionType) and self.is_analysed(f) and (m is None or self.concrete):
             return self.call_analysed(f, args, kwargs, node, frame)
         if m is not None and not self.concrete and (deep_sym(args) or deep_sym(kwargs) or _has_fraction(args)
-                                                    or _has_fraction(kwargs.values())):
+                                                    or _has_fraction(kwargs.values()) or self.models.model_is_always(f)):
             self.trusted_used.add("model:" + m.__name__)
             return m(self, *args, **kwargs)
         if isinstance(f, type) and f.__module__.startswith("typhon") and not self.concrete:
